@@ -58,4 +58,27 @@ def mapIndex (m : SMap α) (k : Nat × Nat) (d : α) : SMap α × α :=
 /-- `memcpy(dest, &object, n)` into a caller's buffer: the `n` bytes copied (undefined if the object is shorter) -/
 def takeExact (b : Bytes) (n : Nat) : Option Bytes := if n ≤ b.length then some (b.take n) else none
 
+/-! ### status tracker: vectors of objects, stored packets -/
+
+/-- a `Packet` as the status tracker sees it: OPAQUE — the table of the values its getter chains return
+    (`"getDeviceId"`, `"getPayload.getType"`, `"getPayload.as_InterfacePayload.getInterfaceId"`); copying a packet copies the table -/
+abbrev OPkt := List (String × Nat)
+def opq (p : OPkt) (key : String) : Nat := (p.lookup key).getD 0
+/-- a default-constructed `Packet` (device id 0; its payload is never asked for) -/
+def defaultPacket : OPkt := []
+
+/-- `std::distance(v.begin(), std::find_if(v.begin(), v.end(), pred))`: index of the first match, or the size -/
+def findIdxD {α} (f : α → Bool) : List α → Nat
+  | [] => 0
+  | x :: xs => if f x then 0 else findIdxD f xs + 1
+
+/-- `v[i]` on a vector of objects: undefined outside the vector -/
+def getIdx {α} (l : List α) (i : Nat) : Option α := l[i]?
+/-- `std::swap(v[i], v[j])`: undefined outside the vector -/
+def swapIdx {α} (l : List α) (i j : Nat) : Option (List α) :=
+  match l[i]?, l[j]? with
+  | some a, some b => some ((l.set i b).set j a)
+  | _, _ => none
+def nonEmptyL {α} (l : List α) : Option Unit := if l.isEmpty then none else some ()
+
 end AsamCmp.Src
